@@ -129,6 +129,21 @@ def stateBefore (pre : List Ev) : String :=
   pre.foldl (fun acc e => match e with
     | .snap _ st _ => st | .reloadRet _ st => st | .ret _ st => st | _ => acc) "New"
 
+/-- the snapshot (state, running children) taken right after reload `k` returned, if nothing else was done in between -/
+def snapAfter (t : List Ev) (k : Nat) : Option (String × List Nat) :=
+  match t.findIdx? (fun e => match e with | .reloadRet k' _ => k' == k | _ => false) with
+  | none => none
+  | some a =>
+    let rest := t.drop (a + 1)
+    match rest.findIdx? (fun e => match e with | .snap _ _ _ => true | _ => false) with
+    | none => none
+    | some j =>
+      if (rest.take j).any (fun e => match e with
+          | .reloadCall _ | .stopCall _ | .cancel | .yieldPt | .inject _ _ | .ret _ _ => true | _ => false) then none
+      else match rest[j]? with
+        | some (.snap _ st run) => some (st, run)
+        | _ => none
+
 def holdsC11 (i : Info) (t : List Ev) : Bool :=
   !i.seq || (List.range (t.filter fun e => match e with | .reloadCall _ => true | _ => false).length).all fun k =>
     match window t k with
@@ -165,5 +180,10 @@ def holdsC11 (i : Info) (t : List Ev) : Bool :=
           (match w.findIdx? (fun e => match e with | .runInv _ _ => true | _ => false) with
            | some f => (runningAfter pre).all fun c => (w.take f).contains (.stopRet c)
            | none => (runningAfter pre).all fun c => w.contains (.stopRet c))
+          -- ... and exactly the new set is running afterwards (and stays: the snapshot is taken after the caller has
+          -- released the context it gave to Reload())
+          && (match snapAfter t k with
+              | some (st', run) => st' != "Running" || sortNat run == sortNat (names new)
+              | none => true)
 
 end GoSup.Spec.Comp
